@@ -165,6 +165,6 @@ def run(tier, seed, work):
     rep = vlib.Report("C03", tier, seed)
     jobs = build_jobs(tier, seed)
     vlib.run_jobs(jobs, work)
-    rep.absorb(jobs)
+    rep.absorb(jobs, replay_cb=vlib.ops_replay_cb("givetake"))
     rep.extraction = {"rules_fired": jobs[0].rules.summary(), "body_sha256_16": jobs[0].hashes}
     return rep.finish("other", EXPLANATION, "cbmc unit.c --function harness --z3 --unwind N --unwinding-assertions")
